@@ -60,6 +60,8 @@ func c05date(c *Ctx, g gdate) {
 	st, en := ds.Time(), de.Time()
 	yrs := ds.Years()
 	c.Tie("date "+g.String(), fmt.Sprintf("%d %d %d %d %.12f", st.Unix(), st.Nanosecond(), en.Unix(), en.Nanosecond(), yrs))
+	// the float64 value itself against the binary64 model (Model/Float64.lean): exact, bit for bit
+	c.Tie("yearsf "+g.String(), c05f64(yrs))
 	c.Eval()
 	c.Count("granularity=" + gran(g))
 	c.Nontrivial(g.String())
@@ -97,6 +99,20 @@ func c05date(c *Ctx, g gdate) {
 		c.Oracle("", "period does not have the calendar's true length", in,
 			fmt.Sprintf("%d s", got), fmt.Sprintf("%d s (%d days)", days*86400, days))
 	}
+}
+
+// c05f64 prints a finite non-negative float64 exactly, in lowest terms: "mant frac" = mant / 2^frac.
+func c05f64(x float64) string {
+	if x < 0 || math.IsInf(x, 0) || math.IsNaN(x) {
+		return fmt.Sprintf("not-finite-nonnegative %v", x)
+	}
+	r := new(big.Rat).SetFloat64(x)
+	den := r.Denom()
+	frac := den.BitLen() - 1
+	if new(big.Int).Lsh(big.NewInt(1), uint(frac)).Cmp(den) != 0 {
+		return "denominator-not-a-power-of-two " + r.String()
+	}
+	return r.Num().String() + " " + strconv.Itoa(frac)
 }
 
 func c05compare(req, impl, model string) bool {
@@ -191,6 +207,8 @@ func c05before(c *Ctx, a, b gdate) {
 		tag = " same"
 	}
 	c.Tie("before "+a.String()+" "+b.String()+tag, bit(bef)+bit(aft))
+	// the same question decided on the binary64 model: no inconclusive ties
+	c.Tie("beforef "+a.String()+" "+b.String(), bit(bef)+bit(aft))
 	c.Eval()
 	c.Count("before:" + gran(a) + gran(b))
 	if gran(a) == "d" && gran(b) == "d" {
